@@ -58,6 +58,23 @@ def st_case(draw):
     if draw(st.integers(0, 4)) == 0:
         base = draw(st_expr_case(CFG_BIG))
         if len(base["targets"]) >= 2:
+            # optionally a first term made of deltas that pair up the free
+            # indices (delta_ij delta_ab - sum t t: overlap / secular matrix
+            # like expressions)
+            tg = sorted(base["targets"])
+            occ = [l for l in tg if label_class(l)[0] == "occ"]
+            virt = [l for l in tg if label_class(l)[0] == "virt"]
+            if len(occ) % 2 == 0 and len(virt) % 2 == 0 and \
+                    draw(st.booleans()):
+                objs = []
+                for grp in (occ, virt):
+                    grp = list(draw(st.permutations(grp)))
+                    for k in range(0, len(grp), 2):
+                        objs.append({"k": "K", "name": "delta",
+                                     "u": [grp[k], grp[k + 1]], "l": [],
+                                     "bk": 0, "exp": 1})
+                base["terms"].insert(0, {"pref": [1, 1], "sqrt": 0,
+                                         "syms": [], "objs": objs})
             return {"terms": base["terms"],
                     "order": list(draw(st.permutations(base["targets"]))),
                     "spins": [], "only_allowed": True, "expand_eri": True,
